@@ -44,6 +44,10 @@ def keys_source(e) -> Optional[str]:
   if isinstance(e, ast.BinOp) and isinstance(e.op, (ast.BitOr, ast.BitAnd,
                                                      ast.Sub)):
     a, b = keys_source(e.left), keys_source(e.right)
+    if isinstance(e.op, ast.Sub):
+      return 'keys' if a == 'keys' else None
+    if isinstance(e.op, ast.BitAnd):
+      return 'keys' if a == 'keys' and b == 'keys' else None
     if a == 'keys' or b == 'keys':
       return 'keys'
     return None
@@ -103,6 +107,20 @@ class KeyKind:
     self.ok: List[Tuple[ast.AST, str]] = []
     self.bad: List[Tuple[ast.AST, str]] = []
     self.sources: List[Tuple[ast.AST, str]] = []
+    # p = X.parameters.get(k[, None]): p is not None implies k is a str
+    self.param_of: Dict[str, str] = {}
+    for n in walk_function(f.node):
+      if isinstance(n, ast.Assign) and len(n.targets) == 1 and isinstance(
+          n.targets[0], ast.Name) and isinstance(n.value, ast.Call) and (
+              isinstance(n.value.func, ast.Attribute) and
+              n.value.func.attr == 'get' and isinstance(
+                  n.value.func.value, ast.Attribute) and
+              n.value.func.value.attr == 'parameters') and n.value.args and (
+                  isinstance(n.value.args[0], ast.Name)):
+        dflt = n.value.args[1] if len(n.value.args) > 1 else None
+        if dflt is None or (isinstance(dflt, ast.Constant) and
+                            dflt.value is None):
+          self.param_of[n.targets[0].id] = n.value.args[0].id
 
   # -- sources
   def _src(self, it) -> Optional[str]:
@@ -110,6 +128,16 @@ class KeyKind:
     if k:
       return k
     e = _strip_wrappers(it)
+    if isinstance(e, ast.BinOp) and isinstance(e.op, (ast.BitOr, ast.BitAnd,
+                                                       ast.Sub)):
+      if isinstance(e.op, ast.Sub):
+        return 'keys' if self._src(e.left) == 'keys' else None
+      if isinstance(e.op, ast.BitAnd):
+        both = self._src(e.left) == 'keys' and self._src(e.right) == 'keys'
+        return 'keys' if both else None
+      if self._src(e.left) == 'keys' or self._src(e.right) == 'keys':
+        return 'keys'
+      return None
     if isinstance(e, ast.Name) and e.id in self.map_vars:
       return 'keys'
     if isinstance(e, ast.Call) and isinstance(
@@ -159,9 +187,18 @@ class KeyKind:
       if allowed:
         out[test.args[0].id] = allowed if branch else SI - allowed
       return out
+    if isinstance(test, ast.Name) and test.id in self.param_of and branch:
+      out[self.param_of[test.id]] = frozenset({S})
+      return out
     if isinstance(test, ast.Compare) and len(test.ops) == 1 and isinstance(
         test.left, ast.Name):
       op, r = test.ops[0], test.comparators[0]
+      if test.left.id in self.param_of and isinstance(
+          r, ast.Constant) and r.value is None:
+        if (isinstance(op, ast.Is) and not branch) or (
+            isinstance(op, ast.IsNot) and branch):
+          out[self.param_of[test.left.id]] = frozenset({S})
+        return out
       # `k in X.parameters` / `k in valid_param_names` => str
       if isinstance(op, ast.In) and isinstance(r, ast.Attribute) and r.attr in (
           'parameters', 'valid_param_names') and branch:
@@ -231,6 +268,13 @@ class KeyKind:
       else:
         self.scan_expr(e.elt, cur)
       return
+    if isinstance(e, ast.Call) and isinstance(e.func, ast.Name) and e.func.id in (
+        'sorted', 'min', 'max') and e.args and not any(
+            k.arg == 'key' for k in e.keywords) and self._src(
+                e.args[0]) == 'keys':
+      desc = f'{e.func.id}() over argument keys in `{unparse(e)[:70]}`'
+      if not any(d == desc for _, d in self.bad):
+        self.bad.append((e, desc))
     for operand, what in self._sink_operand(e):
       if isinstance(operand, ast.Name) and operand.id in st:
         tags = st[operand.id]
